@@ -262,10 +262,31 @@ def reify_algebra(ctx):
         alg = Alg()
         state = {"T": list(T)}
         guard = None
-        for s in fn.body:
-            if isinstance(s, ast.If) and "value_skew_x() == 0" in ast.unparse(s.test) and "value_skew_y() == 0" in ast.unparse(s.test):
+        block = None
+
+        def noskew_leaf(n):
+            # the reifiable case: both skews are zero, both scales are non-zero
+            if isinstance(n, ast.Compare) and len(n.ops) == 1 and isinstance(n.comparators[0], ast.Constant) and n.comparators[0].value == 0:
+                if isinstance(n.ops[0], ast.Eq):
+                    return any(isinstance(c, ast.Attribute) and c.attr.startswith("value_skew") for c in ast.walk(n.left))
+                if isinstance(n.ops[0], ast.NotEq):
+                    return not any(isinstance(c, ast.Attribute) and c.attr.startswith("value_skew") for c in ast.walk(n.left))
+            return None
+
+        for i_, s in enumerate(fn.body):
+            if isinstance(s, ast.If) and {c.attr for c in ast.walk(s.test) if isinstance(c, ast.Attribute)} >= {"value_skew_x", "value_skew_y"}:
+                from ..segeval import boolean as _boolean
+                truth = _boolean(s.test, noskew_leaf)
+                ctx.need(truth is not None, "R02.4", "%s: no-skew guard not decided: %s" % (qual, ast.unparse(s.test)[:80]))
                 guard = s
+                if truth:
+                    block = s.body
+                else:
+                    # guard clause: the reifiable case continues after the statement
+                    ctx.need(s.body and isinstance(s.body[-1], ast.Return), "R02.4", "%s: negated guard does not leave the function" % qual)
+                    block = list(s.orelse) + [x for x in fn.body[i_ + 1:]]
         ctx.need(guard is not None, "R02.4", "%s: no-skew guard not found" % qual)
+        block = [x for x in block if not (isinstance(x, ast.Return) and (x.value is None or (isinstance(x.value, ast.Name) and x.value.id == "self")))]
         acc = {"value_scale_x": 0, "value_skew_x": 1, "value_skew_y": 2, "value_scale_y": 3, "value_trans_x": 4, "value_trans_y": 5}
         # accessor semantics are read from Matrix
         for name, idx in acc.items():
@@ -281,11 +302,11 @@ def reify_algebra(ctx):
             return None
 
         alg.call_hook = hook
-        pre = [s for s in fn.body if s is not guard and isinstance(s, ast.Assign)]
+        pre = [s for s in fn.body if s is not guard and isinstance(s, ast.Assign) and not any(s is x for x in block)]
         try:
             for s in pre:
                 alg.assign(s)
-            for s in guard.body:
+            for s in block:
                 if isinstance(s, ast.Expr):
                     continue
                 if isinstance(s, ast.AugAssign) and ast.unparse(s.target) == "self.transform":
